@@ -18,7 +18,7 @@ WFExprFailing(h, root) ==
 
 \* constant payload of node i as a term leaf (big constants carry their digits in h.big)
 ConstOf(h, i) == IF h.ex[i] \in {"big", "repr"}
-                 THEN LET b == h.big[i] IN [k |-> "c", n |-> 0, d |-> 0, dg |-> b.dg, sc |-> b.sc, sg |-> b.sg]
+                 THEN LET b == h.big[i] IN [k |-> "c", n |-> 0, d |-> 0, dg |-> b.dg, sc |-> b.sc, sg |-> b.sg, xf |-> IF h.ex[i] = "repr" THEN 1 ELSE 0]
                  ELSE [k |-> "c", n |-> h.num[i], d |-> h.den[i]]
 RECURSIVE TermOf(_,_)   \* only called when WFExpr
 TermOf(h, i) == LET k == h.kind[i] IN
